@@ -31,7 +31,7 @@ def strip_nulls(x):
 def cases(ctx):
     res = ctx.tlc("MC_DictShape", "run.cfg", workers=1,
                   extra_files={"run.cfg": "SPECIFICATION Spec\nINVARIANT InvTableSane\nCONSTRAINT Emit\nCHECK_DEADLOCK FALSE\n"},
-                  label="MC_DictShape kinds x shapes x positions", tags=("SHAPE",), timeout=1500)
+                  label="MC_DictShape kinds x shapes x positions", tags=("SHAPE",), require_cases=True, timeout=1500)
     out, seen = [], set()
     for _t, c in res.printed:
         key = (c["kind"], c["shape"], c["pos"])
